@@ -95,6 +95,9 @@ func c01(ctx *core.Ctx) {
 		if m := ti % 40; m == 14 || m == 15 {
 			// table shapes beyond what the small tables reach (long templates, 33-40 services, long media lists, many conditions, 130 routes)
 			ctx.SetAdd("scaled_table_shapes", rt.Scale(&o, ti/40))
+		} else if m == 16 || m == 17 {
+			// services with up to 130 routes on a handful of colliding paths get a share of their own (many candidates per request)
+			ctx.SetAdd("scaled_table_shapes", rt.Scale(&o, 4))
 		}
 		t := rt.GenTable(r, o)
 		ctx.Case(ti, "router="+router+" table="+core.JSON(t))
@@ -308,6 +311,9 @@ func c02(ctx *core.Ctx) {
 		if m := ti % 40; m == 14 || m == 15 {
 			// table shapes beyond what the small tables reach (long templates, 33-40 services, long media lists, many conditions, 130 routes)
 			ctx.SetAdd("scaled_table_shapes", rt.Scale(&o, ti/40))
+		} else if m == 16 || m == 17 {
+			// services with up to 130 routes on a handful of colliding paths get a share of their own (many candidates per request)
+			ctx.SetAdd("scaled_table_shapes", rt.Scale(&o, 4))
 		}
 		t := rt.GenTable(r, o)
 		emptied := ""
